@@ -20,6 +20,7 @@ import (
 	"path/filepath"
 	"regexp"
 	"runtime"
+	"runtime/pprof"
 	"sort"
 	"strconv"
 	"strings"
@@ -129,7 +130,8 @@ func workerWatchdog(c *core.Ctx, tier string) {
 			last, lastChange = s, time.Now()
 		} else if s != 0 && time.Since(lastChange) > stuckAfter {
 			c.FlushProgress()
-			fmt.Fprintf(os.Stderr, "lwmon: one case has been running for %s; aborting this worker\n", stuckAfter)
+			fmt.Fprintf(os.Stderr, "lwmon: one case has been running for %s; aborting this worker. Goroutines at that point:\n", stuckAfter)
+			pprof.Lookup("goroutine").WriteTo(os.Stderr, 1)
 			os.Exit(98)
 		}
 	}
@@ -632,32 +634,47 @@ func confirmDeath(self, racebin, work, prop, tier string, seed uint64, o *childO
 		env = append(env, "GORACE=halt_on_error=0")
 	}
 	outPath := filepath.Join(work, fmt.Sprintf("confirm_%v_%d.json", o.race, o.idx))
-	a := append([]string{"worker", "-prop", prop, "-tier", tier, "-seed", fmt.Sprint(seed), "-out", outPath, "-only-monitor", o.progMon, "-only-case", fmt.Sprint(o.progCase)}, extra...)
-	cmd := exec.Command(bin, a...)
-	cmd.Env = append(os.Environ(), env...)
-	var buf bytes.Buffer
-	cmd.Stdout = &buf
-	cmd.Stderr = &buf
-	cmd.Start()
-	done := make(chan error, 1)
-	go func() { done <- cmd.Wait() }()
+	// a case that got stuck on a schedule (goroutines of the case waiting for one another) need not
+	// get stuck on every execution: replay it up to three times before calling the death unconfirmed
+	attempts := 1
+	if o.timedOut {
+		attempts = 3
+	}
 	var err error
 	timedOut := false
-	select {
-	case err = <-done:
-	case <-time.After(120 * time.Second):
-		timedOut = true
-		cmd.Process.Kill()
-		<-done
-	}
-	tail := buf.String()
-	if len(tail) > 3000 {
-		tail = tail[:3000]
+	tail := ""
+	for try := 0; try < attempts; try++ {
+		a := append([]string{"worker", "-prop", prop, "-tier", tier, "-seed", fmt.Sprint(seed), "-out", outPath, "-only-monitor", o.progMon, "-only-case", fmt.Sprint(o.progCase)}, extra...)
+		cmd := exec.Command(bin, a...)
+		cmd.Env = append(os.Environ(), env...)
+		var buf bytes.Buffer
+		cmd.Stdout = &buf
+		cmd.Stderr = &buf
+		cmd.Start()
+		done := make(chan error, 1)
+		go func() { done <- cmd.Wait() }()
+		select {
+		case err = <-done:
+		case <-time.After(120 * time.Second):
+			timedOut = true
+			cmd.Process.Kill()
+			<-done
+		}
+		tail = buf.String()
+		if len(tail) > 3000 {
+			tail = tail[:3000]
+		}
+		if timedOut || err != nil {
+			break
+		}
 	}
 	if timedOut {
 		return fmt.Sprintf("%s|hang|%s", prop, o.progMon), fmt.Sprintf("case %d of %s does not terminate (worker %s, single-case replay killed after 120 s)", o.progCase, o.progMon, what), ""
 	}
 	if err != nil {
+		if ee, ok := err.(*exec.ExitError); ok && ee.ExitCode() == 98 {
+			return fmt.Sprintf("%s|hang|%s", prop, o.progMon), fmt.Sprintf("case %d of %s does not terminate (worker %s; replayed alone in a fresh process it made no progress for the whole watchdog period)\n%s", o.progCase, o.progMon, what, tail), ""
+		}
 		if harnessPanic(tail) {
 			return "", "", fmt.Sprintf("HARNESS-ERROR: the monitor itself panicked at case %d of %s (not the library):\n%s", o.progCase, o.progMon, tail)
 		}
